@@ -49,7 +49,7 @@ def _case(draw, tier):
         "patterns": draw(st.one_of(st.just([]), gen.patterns(names))),
         "format": draw(st.sampled_from(["default", "default", "summary"])),
     }
-    return {"desc": desc, "backend": draw(st.sampled_from(["slurm", "slurm", "slurm", "sge", "lsf", "lsf"])), "vector": vec,
+    return {"desc": desc, "invoke": draw(gen.invoke()), "backend": draw(st.sampled_from(["slurm", "slurm", "slurm", "sge", "lsf", "lsf"])), "vector": vec,
             "hashing": hashing, "hstate": hstate, "run_patterns": draw(st.one_of(st.just([]), gen.patterns(names))),
             "filter": flt, "accounting": draw(st.sampled_from([True, True, True, False]))}
 
@@ -103,7 +103,7 @@ def run_case(case):
     if flavour == "slurm" and not case.get("accounting", True):
         cfg["backend.slurm.accounting_enabled"] = False
     viols, labels = [], {"backend-" + flavour}
-    with project.Project(desc, backend=flavour, config=cfg) as proj:
+    with project.Project(desc, backend=flavour, config=cfg, invoke=case.get("invoke")) as proj:
         R = model.Resolved(desc)
         eff, records = setup_project(case, proj, R)
         R = model.Resolved(desc)  # specs may have been edited
